@@ -37,7 +37,8 @@ EMPTY_SET = z3.K(V, z3.BoolVal(False))
 # ----------------------------------------------------------------------------------------------
 def seq_units(seq):
     """host list of element terms of a z3 Seq term that is a concatenation of units, else None"""
-    return core._seq_units(seq)
+    r = core._seq_units_raw(seq)
+    return r if r is not None else core._seq_units(seq)
 
 
 def dict_parts(I, d):
@@ -150,6 +151,7 @@ def get_item(I, cont, key):
         if k == K_LIST:
             sq = st.list_sq(cont)
             j = norm_index(I, key, sq.n)
+            st.list_read(cont, j)
             return st.wf_read(z3.simplify(sq.at(j)))
         if k == K_INST:
             gi = I.getattr(cont, "__getitem__")
